@@ -176,7 +176,8 @@ class Driver:
                 return await orig_task(tu)
             except asyncio.CancelledError:
                 drv.cancel_logged.add(asyncio.current_task())
-                drv.log(tu.user.name, 'WorkerStep')
+                if drv.tm._tracked_users.get(tu.user.name) is tu:      # a worker whose entry is gone is invisible
+                    drv.log(tu.user.name, 'WorkerStep')
                 raise
         self.task_user = {}
         self.cancel_logged = set()
@@ -185,10 +186,11 @@ class Driver:
         orig_done = self.tm._on_tracking_task_done
 
         def _on_tracking_task_done(tu, task):
-            if task.cancelled() and task not in drv.cancel_logged:
-                drv.cancel_logged.add(task)
-                drv.log(tu.user.name, 'WorkerStep', undead=True)
-            drv.log(tu.user.name, 'DoneCb')
+            if drv.tm._tracked_users.get(tu.user.name) is tu:          # only the callback of the registered worker is an event
+                if task.cancelled() and task not in drv.cancel_logged:
+                    drv.cancel_logged.add(task)
+                    drv.log(tu.user.name, 'WorkerStep', undead=True)
+                drv.log(tu.user.name, 'DoneCb')
             return orig_done(tu, task)
         patch(self.tm, '_on_tracking_task_done', _on_tracking_task_done)
 
@@ -410,6 +412,15 @@ def monitor(script, tr):
             key = F18B if U['survived_close'] else 'not-dropped-on-close'
             v.append((key, f'{u}: after the server connection closed the tracking entry is still there (flags {flags}, retry armed {armed})'
                       + (' — the worker was inside cancel_task when it was cancelled' if key == F18B else ''), {'user': u}))
+        # (3b) ... and the cancelled worker does nothing any more (a worker that is no longer registered is still
+        # seen by the wrappers around its sends / waits / retry timer)
+        if nclose and not calls_after_last_close:
+            last = max(i for i, e in enumerate(evs) if e == 'ServerClosed')
+            busy = [e for e in evs[last + 1:] if e in ('SendFails', 'TimerFires') or e.startswith('ServerReply')]
+            if busy and not (present or armed):
+                key = F18B if U['survived_close'] else 'worker-active-after-close'
+                v.append((key, f'{u}: after the server connection closed the tracking worker is still active ({busy[:3]})'
+                          + (' — it was inside cancel_task when it was cancelled' if key == F18B else ''), {'user': u}))
         # (4) settled state: tracked implies a reason and a confirmation by the server
         confirmed = any(e == 'ServerReply RExists' for e in evs)
         if state == 1 and (R == 0 or not confirmed):
